@@ -130,7 +130,16 @@ def gen_equiv(seed: int, profile: str):
             g.features.add("filter_split_behind_subquery")
         a = S(id=T(), op="filter", src=t, preds=preds)
         prev = t
-        for p in preds:
+        chain = list(preds)
+        if r.random() < 0.5:
+            # the order of the single-predicate calls does not matter (C15Extra.filter_commute) ...
+            r.shuffle(chain)
+            g.features.add("filter_split_shuffled")
+        if r.random() < 0.25:
+            # ... and neither does repeating one of them (C15Extra.filter_idempotent)
+            chain.insert(r.randint(0, len(chain)), r.choice(preds))
+            g.features.add("filter_split_repeated")
+        for p in chain:
             prev = S(id=T(), op="filter", src=prev, preds=[p])
         pair(a, prev)
     elif kind in ("window_group", "window_docs"):
